@@ -2,7 +2,7 @@
 //! case (given the code under test): batch search, minimisation and replay all go through it.
 
 use super::exec::{run_invocation, Outcome, ResultClass, Scratch};
-use super::gen::{self, GenOpts, World, EDGES, POISONS};
+use super::gen::{self, GenOpts, World, POISONS};
 use super::model::*;
 use super::stats::{tree_digest, Stats};
 use crate::ctx::{Fault, IoKind, Knobs};
@@ -96,6 +96,7 @@ fn base_inv(lang: &str, mode: Mode, config: String) -> Inv {
         faults: vec![],
         fresh_out: true,
         role: "ref".into(),
+        src_age: 0,
     }
 }
 
@@ -171,7 +172,7 @@ pub fn gen_c06(r: &mut Rng, tier: Tier) -> Case {
         inv.knobs.workers = 2;
         ops.push(inv);
     }
-    Case { property: "C06".into(), versions, ops, notes: vec![] }
+    Case { property: "C06".into(), versions, ops, notes: vec![], preseed: vec![] }
 }
 
 fn c06_class(reference: &Inv, inv: &Inv) -> (String, Vec<&'static str>) {
@@ -347,7 +348,8 @@ pub fn gen_c07(r: &mut Rng, tier: Tier) -> Case {
         _ => 2,
     };
     for e in 0..nedges {
-        let edge = &EDGES[r.below(EDGES.len() as u64) as usize];
+        let edges = gen::all_edges();
+        let edge = &edges[r.below(edges.len() as u64) as usize];
         match edge.kind {
             FileKind::Text => {
                 let path = if edge.raw_hex.is_empty() && edge.id != "unparsable" {
@@ -417,7 +419,7 @@ pub fn gen_c07(r: &mut Rng, tier: Tier) -> Case {
         }
         ops.push(inv);
     }
-    Case { property: "C07".into(), versions: vec![tree], ops, notes }
+    Case { property: "C07".into(), versions: vec![tree], ops, notes, preseed: vec![] }
 }
 
 fn norm_panic_message(m: &str) -> String {
@@ -541,6 +543,62 @@ fn eval_c07(case: &Case, sc: &mut Scratch, res: &mut EvalResult) {
 // C08
 // ------------------------------------------------------------------------------------------------
 
+/// Leftovers in the output location before the first run: files with the names the run will write
+/// (or Swift's helper file), holding something else.
+fn gen_preseed(r: &mut Rng, lang: &str, mode: &Mode, world: &World) -> Vec<(String, String)> {
+    let mut v = vec![];
+    if !r.chance(1, 3) {
+        return v;
+    }
+    let contents = ["", "leftover from another tool\n", "// stale\npublic struct CodableVoid: Codable, Equatable {}\n"];
+    let ext = lang_ext(lang);
+    match mode {
+        Mode::File => v.push((format!("types.{ext}"), r.pick(&contents).to_string())),
+        Mode::Folder => {
+            for c in &world.crates {
+                if r.chance(1, 2) {
+                    let cn = gen::crate_name_of(&c.dir);
+                    let name = if lang == "swift" { pascal(&cn) } else { cn };
+                    v.push((format!("{name}.{ext}"), r.pick(&contents).to_string()));
+                }
+            }
+            if lang == "swift" && r.chance(1, 2) {
+                v.push(("Codable.swift".to_string(), r.pick(&contents).to_string()));
+            }
+            if r.chance(1, 3) {
+                v.push((format!("unrelated_{}.{ext}", r.below(10)), "not ours\n".to_string()));
+            }
+        }
+    }
+    v
+}
+
+fn pascal(s: &str) -> String {
+    let mut out = String::new();
+    let mut up = true;
+    for c in s.chars() {
+        if c == '_' {
+            up = true;
+        } else if up {
+            out.push(c.to_ascii_uppercase());
+            up = false;
+        } else {
+            out.push(c);
+        }
+    }
+    out
+}
+
+fn apply_preseed(case: &Case, out: &Path) {
+    if case.preseed.is_empty() {
+        return;
+    }
+    let _ = std::fs::create_dir_all(out);
+    for (name, content) in &case.preseed {
+        let _ = std::fs::write(out.join(name), content);
+    }
+}
+
 pub fn gen_c08(r: &mut Rng, tier: Tier) -> Case {
     let (lang, mode) = pick_lang_mode(r);
     let mut o = gen_opts_for(&lang, r, tier);
@@ -596,7 +654,13 @@ pub fn gen_c08(r: &mut Rng, tier: Tier) -> Case {
         inv.hash_seed = r.next();
         ops.push(inv);
     }
-    Case { property: "C08".into(), versions, ops, notes }
+    let preseed = gen_preseed(r, &lang, &mode, &world);
+    for o in ops.iter_mut() {
+        if r.chance(1, 8) {
+            o.src_age = r.range(1, 2) as u8;
+        }
+    }
+    Case { property: "C08".into(), versions, ops, notes, preseed }
 }
 
 fn untouched(before: &super::exec::Snapshot, after: &super::exec::Snapshot) -> Option<String> {
@@ -631,6 +695,18 @@ fn reference_run(sc: &mut Scratch, tree: &Tree, inv: &Inv, stats: &mut Stats) ->
 fn eval_c08(case: &Case, sc: &mut Scratch, res: &mut EvalResult) {
     let out = sc.out();
     sc.clear_dir(&out);
+    // by convention versions[0] is the tree without the construct; the case is only meaningful if
+    // that tree is accepted under the history's language, mode and configuration
+    if let Some(first) = case.ops.first() {
+        let mut probe = base_inv(&first.lang, first.mode.clone(), first.config.clone());
+        probe.extra = first.extra.clone();
+        let r = reference_run(sc, &case.versions[0], &probe, &mut res.stats);
+        if r.class != ResultClass::Ok {
+            res.rejected = true;
+            return;
+        }
+    }
+    apply_preseed(case, &out);
     let mut poison_path = String::new();
     for n in &case.notes {
         let parts: Vec<&str> = n.split(':').collect();
@@ -765,12 +841,33 @@ pub fn gen_c17(r: &mut Rng, tier: Tier) -> Case {
     if fault_case {
         notes.push("fault_case".into());
     }
-    Case { property: "C17".into(), versions, ops, notes }
+    // the configuration is an input, too: some histories change it between runs
+    if r.chance(1, 5) {
+        let alt = gen::default_config(r, &lang, false);
+        for o in ops.iter_mut() {
+            if r.chance(1, 2) {
+                o.config = alt.clone();
+            }
+        }
+        notes.push("config_varies".into());
+    }
+    // clock skew: sources older than the outputs / from the future, per operation
+    if r.chance(1, 3) {
+        for o in ops.iter_mut() {
+            if r.chance(1, 2) {
+                o.src_age = r.range(1, 2) as u8;
+            }
+        }
+        notes.push("clock_skew".into());
+    }
+    let preseed = if r.chance(1, 4) { gen_preseed(r, &lang, &mode, &worlds[0]) } else { vec![] };
+    Case { property: "C17".into(), versions, ops, notes, preseed }
 }
 
 fn eval_c17(case: &Case, sc: &mut Scratch, res: &mut EvalResult) {
     let out = sc.out();
     sc.clear_dir(&out);
+    apply_preseed(case, &out);
     let mut after_fault = false;
     for (idx, inv) in case.ops.iter().enumerate() {
         let tree = &case.versions[inv.version.min(case.versions.len() - 1)];
@@ -810,7 +907,7 @@ fn eval_c17(case: &Case, sc: &mut Scratch, res: &mut EvalResult) {
                                 res.violations.push(Violation {
                                     property: "C17".into(),
                                     class: "REWRITE_OF_UNCHANGED".into(),
-                                    detail: format!("{ctxs}|{}", file_kind(k)),
+                                    detail: format!("{ctxs}|{}|{}", file_kind(k), if muts.is_empty() { "state-only".to_string() } else { muts.join("+") }),
                                     message: format!(
                                         "run #{idx} touched {k} although its content was already up to date (ops {:?}, inode {}→{}, mtime changed: {})",
                                         muts,
